@@ -256,6 +256,26 @@ def main(a):
             jobs.append(("neg", (prog, (), files), {"item": it.name, "kind": it.kind, "exported": it.exported, "module_imported": mm.path in imports,
                                                     "files": files, "imports": imports}))
             dist["negative"] += 1
+        # negatives through the qualified form: m2.f where f is a visible function of ANOTHER imported module, or a function
+        # defined in the importing file itself: the dotted path names exactly m2's exports
+        flat = [p for p in imports if "." not in p]
+        qn = 0
+        for (mm, it) in visible:
+            if it.kind != "func" or qn >= 2:
+                continue
+            others = [p for p in flat if p != mm.path and it.name not in [x.name for m2 in mods if m2.path == p for x in m2.items]]
+            if not others:
+                continue
+            qn += 1
+            prog = "".join("import %s;\n" % p for p in imports) + "int main() {\n    println(\"start\");\n    println(%s.%s(1));\n    println(\"END\");\n    return 0;\n}\n" % (others[0], it.name)
+            jobs.append(("neg", (prog, (), files), {"item": others[0] + "." + it.name, "kind": "qualified-other-module", "exported": it.exported, "module_imported": True,
+                                                    "files": files, "imports": imports}))
+            dist["negative"] += 1
+        if flat:
+            prog = "".join("import %s;\n" % p for p in imports) + "int zz_local_fn(int k) {\n    return k + 1;\n}\nint main() {\n    println(\"start\", zz_local_fn(1));\n    println(%s.zz_local_fn(1));\n    println(\"END\");\n    return 0;\n}\n" % flat[0]
+            jobs.append(("neg", (prog, (), files), {"item": flat[0] + ".zz_local_fn", "kind": "qualified-importer-function", "exported": False, "module_imported": True,
+                                                    "files": files, "imports": imports}))
+            dist["negative"] += 1
     outs = common.run_programs(exe, [j[1] for j in jobs], timeout=10)
     twin_out = None
     for (kind, prog, meta), o in zip(jobs, outs):
